@@ -18,3 +18,11 @@ EXPLANATION = ('Bounded, exhaustive over all ranges/tags of up to 3 (4) subtags 
 LEVEL_TEXT = EXPLANATION
 TECHNIQUE = 'bounded (exhaustive small scope) evaluation of the RFC 4647 contract on the real function; hub contract proved'
 MUSTFAIL = False
+
+
+def _bt_value_lists(ctx):
+    from pyvc import bounded_text
+    return bounded_text.value_lists(ctx)
+
+
+BOUNDED = BOUNDED + [_bt_value_lists]
